@@ -3,6 +3,8 @@
 sits next to the list of properties it covers). Run after changing a claim."""
 import json
 import os
+import sys
+sys.path.insert(0, os.path.dirname(os.path.abspath(__file__)))
 
 VERIF = os.path.dirname(os.path.dirname(os.path.abspath(__file__)))
 
@@ -116,6 +118,27 @@ READY = {"C%02d" % i for i in range(1, 21)}
 PENDING_REASON = "check not built yet at this commit (planned in DESIGN.md section 5); not claimed until its obligations are discharged on the unchanged tree"
 
 
+def _served(engine):
+    """Properties for which the engine actually has obligations (cross-listed ones included)."""
+    import run as R
+    import kani_engine as KE
+    import verus_engine as VE
+    out = set()
+    for i in range(1, 21):
+        pid = "C%02d" % i
+        if engine == "kani":
+            _m, obs = R.kani_obligations(pid, "thorough")
+            if obs or any(pid in h["props"] for e in KE.discover_ext() for h in e["harnesses"]):
+                out.add(pid)
+        elif engine == "verus":
+            if VE.obligations(pid, "thorough"):
+                out.add(pid)
+        else:
+            if any(pid in q["props"] for e in KE.discover_ext() for q in e.get("probes", [])) or any(pid in h["props"] for e in KE.discover_ext() for h in e["harnesses"]):
+                out.add(pid)
+    return sorted(out)
+
+
 def main():
     props = [json.loads(l)["id"] for l in open(os.path.join(VERIF, "properties.jsonl"))]
     checks = []
@@ -152,10 +175,12 @@ def main():
             "add_only": True,
         },
         "engines": [
-            {"name": "kani", "path": "tools/kani_engine.py", "serves_properties": sorted(p for p, c in CLAIMS.items() if "kani" in c.get("engine", "kani")),
-             "kind_free_text": "Kani 0.68 / CBMC 6.11 proof harnesses and function contracts on the real crate (annotated scratch copy), counterexamples replayed natively with cargo kani playback"},
-            {"name": "verus", "path": "tools/verus_engine.py", "serves_properties": sorted(p for p, c in CLAIMS.items() if "verus" in c.get("engine", "")),
+            {"name": "kani", "path": "tools/kani_engine.py", "serves_properties": _served("kani"),
+             "kind_free_text": "Kani 0.68 / CBMC 6.11 proof harnesses and function contracts on the real crate (annotated scratch copy, nine feature/profile configurations), counterexamples replayed natively with cargo kani playback; harness crates outside rrtk (kani/ext) for what a downstream crate sees"},
+            {"name": "verus", "path": "tools/verus_engine.py", "serves_properties": _served("verus"),
              "kind_free_text": "Verus 0.2026.09.13 on functions extracted mechanically from /repo each run, with requires/ensures/invariants/lemmas from /verif/verus"},
+            {"name": "rustc", "path": "tools/kani_engine.py", "serves_properties": _served("rustc"),
+             "kind_free_text": "rustc's type checker as the deciding step for two kinds of obligation about the public macros/API as seen from a downstream crate: 'the expansion of to_dyn! compiles in this calling crate' (differential against the same crate with the macro call compiled out) and 'this expression does not compile in safe code' (must-not-compile probes, kani/ext/c16_safe_surface)"},
         ],
         "checks": checks,
         "notes": "Exit codes: 0 all obligations discharged; 1 an obligation refuted (VIOLATION line); 2 undecided (lost anchor, unsupported construct, timeout) - never an alarm. Known findings: /verif/known_findings.txt.",
